@@ -67,7 +67,51 @@ def is_success_exit(e):
     return not e.outcome.startswith("Err(") and e.outcome not in ("None",)
 
 
+def _pat_regex(pat):
+    if pat is None:
+        return None
+    if hasattr(pat, "pattern"):
+        return pat.pattern
+    if isinstance(pat, (list, tuple, set, frozenset)):
+        return "|".join("(?:%s)" % _pat_regex(p) for p in pat)
+    return re.escape(pat) + "$"
+
+
 def require_tried_before_success(rule, F, fn, required, delegate=None, floor_each=True):
+    """Every accepting path of `fn` has a call matching each required pattern whose result was examined and found Ok/Some/true.
+    Decided by abstract evaluation (private helpers inlined, any control-flow spelling); falls back to the structural HIR
+    inventory below when the function cannot be evaluated."""
+    import symrules as SR
+    import sym as SY
+    if F.hir(fn) is not None:
+        pats = [_pat_regex(p) for _, p in required] + ([_pat_regex(delegate)] if delegate is not None else [])
+        try:
+            tab = SR.Table(F, fn, opaque="|".join("(?:%s)" % p for p in pats), max_paths=3000, inline_depth=3)
+        except Exception:
+            tab = None
+        if tab is not None and not tab.error and tab.ok() and len(tab.incomplete) <= len(tab.paths):
+            oks = tab.ok()
+            drx = re.compile(_pat_regex(delegate)) if delegate is not None else None
+            for label, pat in required:
+                rx = re.compile(_pat_regex(pat))
+                bad = None
+                for q in oks:
+                    if SR.call_succeeded(q, rx):
+                        continue
+                    if drx is not None and isinstance(q.ret, SY.Sym) and any(drx.search(e.fn or "") and SR.derives(q.ret, e.result.t) for e in q.events if e.kind == "call" and e.result is not None):
+                        continue
+                    bad = q
+                    break
+                if bad is None:
+                    rule.site("%s: `%s?` precedes success on %d accepting path(s)" % (short(fn), label, len(oks)))
+                else:
+                    rule.fail((fn, "missing-before-success", label),
+                              "%s: a success exit is reachable without `%s` having succeeded — path: %s" % (short(fn), label, bad.describe()[:240] or "(unconditional)"))
+            return oks
+    return _require_tried_before_success_hir(rule, F, fn, required, delegate, floor_each)
+
+
+def _require_tried_before_success_hir(rule, F, fn, required, delegate=None, floor_each=True):
     """Every non-Err exit of `fn` must be preceded by a `?`-propagated (tried) call matching each pattern in `required`
     (list of (label, pattern)).  A tail exit that is itself a call matching `delegate` passes (the callee is checked separately).
     Returns list of ExitInfo for success exits."""
